@@ -81,8 +81,8 @@ def classes(tier):
         for op in range(256):
             if op in X.PRE_BYTES:
                 continue
-            if p is not None and op not in im and tier == "quick":
-                continue
+            if p is not None and op not in im:
+                continue  # a prefix is only run where it can matter (an internal-memory operand exists), as in C03/C04
             by_len = pr.get(op, {})
             for ln, b2s in sorted(by_len.items()):
                 n = ln + (1 if p is not None else 0)
